@@ -138,6 +138,15 @@ func run(c *hc.Ctx) {
 	if want("hist") {
 		g.histories()
 	}
+	if want("pipe") {
+		g.pipeline()
+	}
+	if want("comp") {
+		g.compositing()
+	}
+	if want("tables") {
+		g.colourTables()
+	}
 }
 
 // ---- 1a. fixed point ----
@@ -170,7 +179,7 @@ func (g *gen) fixVal() float64 {
 func (g *gen) fixedPoint() {
 	c := g.c
 	toI := canvas.VerifToI26_6
-	for it := 0; it < c.N*6; it++ {
+	for it := 0; it < c.N*2; it++ {
 		x, y := g.fixVal(), g.fixVal()
 		i := toI(x)
 		c.Case("FIX toI "+hc.H(x), "=", fmt.Sprint(i))
@@ -528,6 +537,244 @@ func (g *gen) histories() {
 	}
 }
 
+// ---- 1f. the whole canvas -> scanner pipeline, coordinate systems, compositing, colour tables ----
+
+func (g *gen) randAff(W, H float64) aff {
+	c := g.c
+	m := ident
+	for k := 0; k < 1+c.Intn(3); k++ {
+		switch c.Intn(6) {
+		case 0:
+			m = m.mul(translate(float64(c.Intn(int(W)+1))*0.5, float64(c.Intn(int(H)+1))*0.5))
+		case 1:
+			m = m.mul(scale(0.25*float64(1+c.Intn(8)), 0.25*float64(1+c.Intn(8))))
+		case 2:
+			m = m.mul(rotate(float64(90 * c.Intn(4))))
+		case 3:
+			m = m.mul(rotate(c.Range(0, 360)))
+		case 4:
+			m = m.mul(scale(-1, 1))
+		default:
+			m = m.mul(shear(0.25*float64(c.Intn(5)-2), 0))
+		}
+	}
+	return m
+}
+
+func (m aff) canvas() canvas.Matrix { return canvas.Matrix{{m.a, m.b, m.e}, {m.c, m.d, m.f}} }
+func (m aff) hex() string           { return hc.Hs(m.a, m.b, m.e, m.c, m.d, m.f) }
+
+func (g *gen) pipeline() {
+	c := g.c
+	for it := 0; it < c.N/2; it++ {
+		dpmm := g.res()
+		W, H := float64(8+c.Intn(40)), float64(8+c.Intn(30))
+		if dpmm < 1 {
+			W, H = math.Round(W/dpmm), math.Round(H/dpmm)
+		}
+		var r *rasterizer.Rasterizer
+		if msg := hc.Try(func() { r = rasterizer.New(W, H, canvas.DPMM(dpmm), nil) }); msg != "" {
+			continue
+		}
+		hpx := r.Bounds().Dy()
+		m := g.randAff(W, H)
+		view := ident
+		if c.Chance(0.5) {
+			view = g.randAff(W, H)
+		}
+		x, y := float64(c.Intn(int(W)+1)), float64(c.Intn(int(H)+1))
+		switch c.Intn(3) {
+		case 0:
+			x, y = x/4, y/4
+		case 1:
+			x, y = c.Range(-W/4, W), c.Range(-H/4, H)
+		}
+		cv := canvas.New(W, H)
+		p := &canvas.Path{}
+		p.MoveTo(x, y)
+		cv.RenderPath(p, canvas.Style{Fill: canvas.Paint{Color: canvas.Red}}, m.canvas())
+		var x0, y0, x1, y1 int32
+		if msg := hc.Try(func() {
+			cv.RenderViewTo(r, view.canvas())
+			x0, y0, x1, y1 = r.VerifLastExtent()
+		}); msg != "" {
+			c.Fail("panic:RenderViewTo:"+strings.SplitN(msg, "\n", 2)[0], msg, map[string]any{"m": m, "view": view, "x": x, "y": y})
+			continue
+		}
+		if x0 != x1 || y0 != y1 {
+			c.Count("pipeline: scanner saw no single point")
+			continue
+		}
+		if math.Abs(float64(x0)) > 1e8 || math.Abs(float64(y0)) > 1e8 {
+			c.Count("pipeline: out of 26.6 range")
+			continue
+		}
+		c.Case(fmt.Sprintf("PIPE %d %s %s %s %s", hpx, hc.H(dpmm), view.hex(), m.hex(), hc.Hs(x, y)), "=", fmt.Sprintf("%d %d", x0, y0))
+		// oracle: the layer point goes to the pixel position of view·m·p (own arithmetic), y up
+		c.Evals++
+		q := view.mul(m).dot(hc.P2{X: x, Y: y})
+		ex, ey := q.X*dpmm, float64(hpx)-q.Y*dpmm
+		tol := 3.0/128 + 1e-6*(1+math.Abs(ex)+math.Abs(ey))
+		if math.Abs(float64(x0)/64-ex) > tol || math.Abs(float64(y0)/64-ey) > tol {
+			c.Fail("pipeline-position", fmt.Sprintf("layer point (%v,%v) with m=%v through view=%v at %v px/mm reaches the scanner at (%v,%v) px, expected (%v,%v)", x, y, m, view, dpmm, float64(x0)/64, float64(y0)/64, ex, ey),
+				map[string]any{"m": m, "view": view, "x": x, "y": y, "dpmm": dpmm, "W": W, "H": H})
+		}
+		if dpmm < 1 {
+			c.Count("pipeline dpmm<1")
+		} else {
+			c.Count("pipeline dpmm>=1")
+		}
+		c.Distinct("pipe" + m.hex() + view.hex() + hc.Hs(x, y, dpmm))
+	}
+	// Context.CoordSystemView
+	for it := 0; it < c.N/4; it++ {
+		W, H := float64(1+c.Intn(200)), float64(1+c.Intn(200))
+		switch c.Intn(3) {
+		case 0:
+			W, H = W/4, H/4
+		case 1:
+			W, H = c.Range(0.5, 300), c.Range(0.5, 300)
+		}
+		cs := c.Intn(4)
+		ctx := canvas.NewContext(canvas.New(W, H))
+		ctx.SetCoordSystem(canvas.CoordSystem(cs))
+		mv := ctx.CoordSystemView()
+		c.Case(fmt.Sprintf("CSV %d %s", cs, hc.Hs(W, H)), "=", hc.Hs(mv[0][0], mv[0][1], mv[0][2], mv[1][0], mv[1][1], mv[1][2]))
+		c.Evals++
+		o := mv.Dot(canvas.Point{})
+		corner := [][2]float64{{0, 0}, {W, 0}, {W, H}, {0, H}}[cs]
+		if math.Abs(o.X-corner[0]) > 1e-9 || math.Abs(o.Y-corner[1]) > 1e-9 {
+			c.Fail("coordsystem-origin", fmt.Sprintf("coordinate system %d of a %vx%v canvas puts its origin at %v", cs+1, W, H, o), map[string]any{"cs": cs, "W": W, "H": H})
+		}
+		c.Count(fmt.Sprintf("csv system=%d", cs+1))
+		c.Distinct("csv" + fmt.Sprint(cs) + hc.Hs(W, H))
+	}
+}
+
+// compositing of semi-transparent draws (fill then stroke, z order), full coverage, linear space
+func (g *gen) compositing() {
+	c := g.c
+	pre := func() color.RGBA {
+		a := []int{255, 255, 128, 64, 200, 1, 254, 17}[c.Intn(8)]
+		if c.Chance(0.3) {
+			a = c.Intn(256)
+		}
+		return color.RGBA{uint8(c.Intn(a + 1)), uint8(c.Intn(a + 1)), uint8(c.Intn(a + 1)), uint8(a)}
+	}
+	for it := 0; it < c.N/3; it++ {
+		dpmm := []float64{2, 3, 4.5}[c.Intn(3)]
+		W, H := 24.0, 20.0
+		C := hc.P2{X: 12.25, Y: 10.25}
+		cv := canvas.New(W, H)
+		ctx := canvas.NewContext(cv)
+		type lay struct {
+			z    int
+			cols []color.RGBA
+		}
+		var lays []lay
+		n := 1 + c.Intn(4)
+		for k := 0; k < n; k++ {
+			z := 0
+			if c.Chance(0.3) {
+				z = c.Intn(3) - 1
+			}
+			ctx.SetZIndex(z)
+			ctx.SetStrokeColor(canvas.Transparent)
+			fillc := pre()
+			ctx.SetFillColor(fillc)
+			cols := []color.RGBA{fillc}
+			if c.Chance(0.4) { // the rectangle's left edge 1 mm left of C, stroke width 4: C is inside fill and stroke
+				strokec := pre()
+				ctx.SetStrokeColor(strokec)
+				ctx.SetStrokeWidth(4)
+				ctx.DrawPath(C.X-1, C.Y-5, canvas.Rectangle(9, 10))
+				cols = append(cols, strokec)
+			} else {
+				w, h := float64(6+c.Intn(10)), float64(6+c.Intn(8))
+				ctx.DrawPath(C.X-w/2, C.Y-h/2, canvas.Rectangle(w, h))
+			}
+			if fillc.A == 0 {
+				cols = cols[1:] // a fully transparent paint is "no fill"
+			}
+			for len(cols) > 0 && cols[len(cols)-1].A == 0 {
+				cols = cols[:len(cols)-1]
+			}
+			lays = append(lays, lay{z, cols})
+		}
+		sort.SliceStable(lays, func(i, j int) bool { return lays[i].z < lays[j].z })
+		var seq []color.RGBA
+		for _, l := range lays {
+			seq = append(seq, l.cols...)
+		}
+		var img *image.RGBA
+		if msg := hc.Try(func() { img = rasterizer.Draw(cv, canvas.DPMM(dpmm), canvas.LinearColorSpace{}) }); msg != "" {
+			c.Fail("panic:Draw:"+strings.SplitN(msg, "\n", 2)[0], msg, map[string]any{"draws": fmt.Sprint(lays)})
+			continue
+		}
+		i, j := int(C.X*dpmm), img.Bounds().Dy()-1-int(C.Y*dpmm)
+		px := img.RGBAAt(i, j)
+		var toks []string
+		for _, col := range seq {
+			toks = append(toks, fmt.Sprintf("%d %d %d %d", col.R, col.G, col.B, col.A))
+		}
+		c.Case(strings.TrimSpace(fmt.Sprintf("COMP %d %s", len(seq), strings.Join(toks, " "))), "=", fmt.Sprintf("%d %d %d %d", px.R, px.G, px.B, px.A))
+		// oracle: ideal source-over of the premultiplied paints, in drawing order
+		c.Evals++
+		acc := [4]float64{}
+		for _, col := range seq {
+			sa := float64(col.A) / 255
+			src := [4]float64{float64(col.R), float64(col.G), float64(col.B), float64(col.A)}
+			for k := range acc {
+				acc[k] = src[k] + acc[k]*(1-sa)
+			}
+		}
+		got := [4]float64{float64(px.R), float64(px.G), float64(px.B), float64(px.A)}
+		for k := range acc {
+			if math.Abs(got[k]-acc[k]) > float64(len(seq))+0.5 {
+				c.Fail("compositing-not-source-over", fmt.Sprintf("draws %v (z-sorted, fill then stroke) give pixel %v, source-over gives %v", seq, px, acc), map[string]any{"draws": fmt.Sprint(seq), "dpmm": dpmm})
+				break
+			}
+		}
+		opaque := 0
+		for _, col := range seq {
+			if col.A == 255 {
+				opaque++
+			}
+		}
+		c.Count(fmt.Sprintf("comp draws=%d opaque=%d", len(seq), opaque))
+		c.Distinct("comp" + strings.Join(toks, ","))
+	}
+}
+
+// the 8-bit colour-space conversions: complete tables for opaque colours
+func (g *gen) colourTables() {
+	c := g.c
+	type sp struct {
+		name string
+		cs   canvas.ColorSpace
+	}
+	for _, s := range []sp{{"srgb", canvas.SRGBColorSpace{}}, {"gamma22", canvas.GammaColorSpace{Gamma: 2.2}}} {
+		prevTo, prevFrom := -1, -1
+		for v := 0; v < 256; v++ {
+			col := color.RGBA{uint8(v), uint8(v), uint8(v), 255}
+			to, from := s.cs.ToLinear(col), s.cs.FromLinear(col)
+			c.Case(fmt.Sprintf("CSP %s to %d", s.name, v), "=", fmt.Sprint(to.R))
+			c.Case(fmt.Sprintf("CSP %s from %d", s.name, v), "=", fmt.Sprint(from.R))
+			// per-channel independence and the property-level facts: monotone, opaque stays opaque
+			c.Evals++
+			mixed := s.cs.ToLinear(color.RGBA{uint8(v), uint8(255 - v), uint8(v / 2), 255})
+			if mixed.R != to.R || to.G != to.R || to.B != to.R || to.A != 255 || from.A != 255 {
+				c.Fail("colourspace-channel-dependence", fmt.Sprintf("%s: channels are not converted independently at %d", s.name, v), map[string]any{"space": s.name, "v": v})
+			}
+			if int(to.R) < prevTo || int(from.R) < prevFrom {
+				c.Fail("colourspace-not-monotone", fmt.Sprintf("%s conversion is not monotone at %d", s.name, v), map[string]any{"space": s.name, "v": v})
+			}
+			prevTo, prevFrom = int(to.R), int(from.R)
+		}
+		c.Count("colour table " + s.name)
+	}
+}
+
 // ---- 2. pixel refinement ----
 
 type drawRec struct {
@@ -614,7 +861,7 @@ func (g *gen) onePixelCase(it int) {
 	var descr []string
 	unit0 := math.Min(W, H) / 20 // polygons live in [-8,8]^2
 	ndraws := 1 + c.Intn(3)
-	checkDashZone := false
+	flattenZone := false
 	viewKinds := ""
 	for k := 0; k < ndraws; k++ {
 		// view: centre + rotation/scale/… ; both through the composer API and through SetView
@@ -723,6 +970,27 @@ func (g *gen) onePixelCase(it int) {
 			c.Count("skipped: not flat")
 			continue
 		}
+		if class == 4 {
+			// cause predicate of C14-flatten-tolerance-exceeded: the library's own flattening of the
+			// transformed path (what RenderPath/ToScanxScanner do, tolerance 0.1 px) is farther than a
+			// quarter pixel from the curve (C03's flattening defects) — the 1 px band leaves 0.29 px
+			var lcs [][]hc.P2
+			if msg := hc.Try(func() {
+				lib := p.Copy().Transform(M.canvas()).Flatten(canvas.PixelTolerance / dpmm)
+				lcs, _ = hc.Contours(lib)
+			}); msg == "" && len(lcs) > 0 {
+				dev := 0.0
+				for _, ct := range mapContours(M, cs0) {
+					for _, pt := range ct {
+						dev = math.Max(dev, hc.DistToContours(pt, lcs))
+					}
+				}
+				if dev*dpmm > 0.25 {
+					flattenZone = true
+					c.Count("draw fill curved: library flattening deviates > 0.25 px")
+				}
+			}
+		}
 		mode := c.Intn(10) // 0-5 fill, 6-7 stroke, 8-9 both
 		rule := c.Intn(2)
 		ctx.SetFillColor(canvas.Transparent)
@@ -748,14 +1016,21 @@ func (g *gen) onePixelCase(it int) {
 			// dashes (in units of the stroke width, as the rasterizer scales them)
 			ctx.SetDashes(0)
 			var dashes []float64
-			if c.Chance(0.25) {
+			if c.Chance(0.3) {
 				dashes = [][]float64{{3, 2}, {4, 4}, {2, 1, 1, 1}, {6, 3}}[c.Intn(4)]
+				if L := p.Length(); c.Chance(0.4) && L >= 4 && !math.IsInf(L, 0) && !math.IsNaN(L) {
+					// the unit boundary of DrawPath's "first dash covers the whole path" shortcut: the first dash is at
+					// least the path length in millimetres but shorter once scaled by a stroke width below 1
+					w = 0.25 * float64(1+c.Intn(3))
+					ctx.SetStrokeWidth(w)
+					d0 := math.Ceil(L) + float64(c.Intn(2))
+					dashes = []float64{d0, d0}
+				}
 				ctx.SetDashes(0, append([]float64{}, dashes...)...)
 				c.Count("draw stroke dashed")
-				// DrawPath.checkDash compares the UNSCALED pattern with the path length, the rasterizer
-				// then scales the pattern by the stroke width: flag the zone where the two disagree
+				// (since 7030ab4 DrawPath decides "first dash covers the whole path" in stroke-width units like the
+				// renderers; the zone where the unscaled and the scaled reading differ is counted, not excused)
 				if L := p.Length(); dashes[0] >= L-1e-9 && dashes[0]*w < L-1e-9 {
-					checkDashZone = true
 					c.Count("draw stroke dashed: first dash >= path length before scaling, < after")
 				}
 				d += fmt.Sprintf(" dashes=%v", dashes)
@@ -861,8 +1136,8 @@ func (g *gen) onePixelCase(it int) {
 	sb.WriteString(" ROWS ")
 	sb.WriteString(strings.Join(rows, " "))
 	sfx := ""
-	if checkDashZone {
-		sfx += "+checkdash-units"
+	if flattenZone {
+		sfx += "+flatten-tolerance-exceeded"
 	}
 	if sfx != "" {
 		sfx = " " + sfx
